@@ -48,11 +48,13 @@ type FuncSpec struct {
 	Lets     []*Clause // let name := expr (evaluated in post-state)
 	AtCalls  map[string][]*Clause // callee short name -> assertions checked in the caller's state at each call
 	ResultIs *Clause              // definitional: the (first) result is exactly this spec term (when err == nil)
+	HashExcept []string
+	HashInj  bool                 // 2-safety mode: the sha256 pre-image determines every field of the receiver
 	File     string
 }
 
 func (f *FuncSpec) HasContract() bool {
-	return f != nil && (len(f.Requires) > 0 || len(f.Ensures) > 0 || f.ModSet || f.Pure || f.ResultIs != nil)
+	return f != nil && (len(f.Requires) > 0 || len(f.Ensures) > 0 || f.ModSet || f.Pure || f.ResultIs != nil) && !(f.HashInj && f.ResultIs == nil && len(f.Ensures) == 0 && false)
 }
 
 func (c *Clause) appliesTo(prop string) bool {
@@ -262,6 +264,11 @@ func (db *SpecDB) loadFile(pkgPath, file string) error {
 		case body == "pure":
 			cur.Pure = true
 			cur.ModSet = true
+		case strings.HasPrefix(body, "hash-injective"):
+			cur.HashInj = true
+			if i := strings.Index(body, "except"); i >= 0 {
+				cur.HashExcept = strings.Fields(body[i+6:])
+			}
 		case body == "inline":
 			cur.Inline = true
 		case strings.HasPrefix(body, "modifies"):
